@@ -1,16 +1,23 @@
 ---- MODULE SchedulerGen ----
-(* Schedule generation: behaviours of the design spec; the environment's moves (the truth and the start time, every
+(* Schedule generation (SchedulerGen.cfg: flags off, no head events; SchedulerGenFeat.cfg: flags and head events): behaviours of the design spec; the environment's moves (the truth and the start time, every
    clock move, the outcome of every beacon request) are recorded in `hist` and printed when the clock has reached
    GenEnd and everything has run.  Run with -simulate.  checks/c15.py turns the request outcomes into the ordinals
    of the failing requests. *)
 EXTENDS SchedulerMC, Json
-CONSTANTS GenEnd
+CONSTANTS GenEnd, MaxHeads
 VARIABLE hist
-GenInit == MCInit /\ hist = <<[ev |-> "Cfg", truth |-> truth, start |-> now]>>
+GenInit == MCInit /\ hist = <<[ev |-> "Cfg", truth |-> truth, start |-> now, feat |-> feat]>>
 GenNext ==
   \/ GorStep /\ UNCHANGED <<nfail, hist>>
-  \/ (gor = {}) /\ (Tick(EmitSlot) \/ SchedSlot \/ LoopStep) /\ UNCHANGED <<nfail, hist>>
-  \/ /\ gor = {}
+  \/ (ReadyGor = {}) /\ (Tick(EmitSlot) \/ SchedSlot \/ LoopStep) /\ UNCHANGED <<nfail, hist>>
+  \* a head event (also one that does nothing: another slot, no duty, twice, flags off), between two clock moves or
+  \* right after a tick (the executor delivers the latter from inside schedSlotFunc)
+  \/ /\ pc \in HeadPcs /\ ReadyGor = {} /\ Cardinality({k \in DOMAIN hist : hist[k].ev = "Head"}) < MaxHeads
+     /\ \E n \in {CurSlot(now) - 1, CurSlot(now), CurSlot(now) + 1} :
+           /\ n >= 0 /\ HeadEvent(n, TRUE)
+           /\ hist' = Append(hist, [ev |-> "Head", slot |-> n, atsched |-> (pc = "sched"), sslot |-> slot])
+     /\ UNCHANGED nfail
+  \/ /\ ReadyGor = {}
      /\ \E ok \in BOOLEAN : /\ (ok \/ nfail < MaxFail) /\ nfail' = IF ok THEN nfail ELSE nfail + 1
                             /\ \/ CallVals(ok, ValsResp(now))
                                \/ \E k \in {"att", "pro", "sync"} : CallDuties(k, ok, FullResp(k, res.ep, res.vs))
